@@ -334,11 +334,18 @@ def path_tail(t):
     return t[2] if t[0] == "field" else None
 
 
-RULES = [r1, r2, r3, r4, r5, r6, r7, r8]
+def r9(ctx):
+    """a cleared (or set) range reaches the bitfield file: FixedBitfield::set_range reports a change
+    in any word of the range, so that the page is queued and written by the next flush (C08.R6)"""
+    from . import c08
+    c08.fixed_set_range(ctx, P, "C01.R9")
+
+
+RULES = [r1, r2, r3, r4, r5, r6, r7, r8, r9]
 EXPLANATION = ("C01 (log contents equal an append-only list model across reopen): decides the replay codec agreement of the oplog Entry — each optional section is decoded under the flag bit it was "
                "encoded with, flags 1/2/4/8, same presence conditions in size and encode (R1); replay completeness — every field of Entry reaches its consumer inside the replay loop of Hypercore::new, the "
                "rebuilt changeset is completed, copied into the header and committed, entries are walked in log order, and whether a replay consumer runs for an entry depends only on the entry field it consumes — never on another field such as tree_upgrade (R2); the read gate — every storage read of get() is dominated by bitfield.get(index), the "
                "not-held edge returns Ok(None), has() is bitfield.get(index) (R3); append / clear placement — data offset = tree.byte_length before commit, bitfield update = [ancestors, +batch_length), clear "
-               "logs and drops exactly [start, end) (R4); observation provenance — AppendOutcome / Info come from the committed tree, commit copies the changeset, byte length accumulates node sizes (R5); loops that persist or apply one thing per element (batch blocks, changeset nodes, unflushed nodes, dirty pages, replayed nodes) do so for every element (R6); the bitfield page reader uses the writer's stride, page-relative little-endian words and reads every word of a complete page (R7).")
+               "logs and drops exactly [start, end) (R4); observation provenance — AppendOutcome / Info come from the committed tree, commit copies the changeset, byte length accumulates node sizes (R5); loops that persist or apply one thing per element (batch blocks, changeset nodes, unflushed nodes, dirty pages, replayed nodes) do so for every element (R6); the bitfield page reader uses the writer's stride, page-relative little-endian words and reads every word of a complete page (R7); clear punches its hole into the data store only between the nearest held blocks (R8); FixedBitfield::set_range reports a change in any word of its range, so that the page reaches the file (R9 = C08.R6).")
 NOT_DECIDED = ("byte equality of reads; byte offsets of blocks (sums of node sizes over flat-tree paths); the hole computation in clear; flush cadence; that reopening changes no observation beyond R1/R2.")
 ASSUMPTIONS = ["flat_tree index arithmetic is correct"]
